@@ -120,6 +120,29 @@ theorem wait_fifo_one_at_a_time (c : Cfg) (ops : List Op) (h : c.mode = Mode.wai
   have := run_fifo c ops h
   rw [this]; simp
 
+/-- the stop_timeout clock: an expiry (`timeout` marker) happens only after `stop()`, no earlier than
+    stop time + stop_timeout, and in one instant only -/
+theorem timeout_not_before_deadline (c : Cfg) (ops : List Op) (t : Nat)
+    (h : (t, Ev.timeout) ∈ (run c ops).log) :
+    (∃ ts, (run c ops).stopAt = some ts ∧ ts + c.stopTimeout ≤ t) ∧ (run c ops).stopped = true ∧
+    ∀ t2, (t2, Ev.timeout) ∈ (run c ops).log → t2 = t := by
+  obtain ⟨_, h2, h3, h4⟩ := run_tInv c ops
+  obtain ⟨⟨ts, hts, hle⟩, _, _⟩ := h2 t h
+  exact ⟨⟨ts, hts, hle⟩, h4 (by simp [hts]), fun t2 h' => h3 t2 t h' h⟩
+
+/-- work that fits into stop_timeout is not touched by it: the timeout expires only while a run is
+    still active -- once everything is complete, an expiry at `t` is followed by an output decrement at
+    `t` or later.  (Contrapositive: if the output has gone down for the last time before stop time +
+    stop_timeout, nothing is cancelled by the timeout and all the statements above hold in their
+    timeout-free form.) -/
+theorem timeout_only_while_work_pending (c : Cfg) (ops : List Op) (t : Nat)
+    (h : (t, Ev.timeout) ∈ (final c ops).log) :
+    ∃ t' n, t ≤ t' ∧ (t', Ev.out n) ∈ (final c ops).log := by
+  obtain ⟨_, h2, _, _⟩ := run_tInv c (ops ++ [.finish])
+  rcases (h2 t h).2.2 with hx | ⟨hr, _⟩
+  · exact hx
+  · exact absurd (returns_to_zero c ops).2.1 hr
+
 /-- wait and start mode cancel nothing, except in the instant in which stop_timeout expires
     (`timeout` marker of the model at the same time stamp) -/
 theorem timeout_cancels_only_at_expiry (c : Cfg) (ops : List Op) (h : c.mode ≠ Mode.cancel) (t : Nat) (j : Job)
